@@ -123,43 +123,52 @@ def _family(case, m):
         return "PV-F-B-trailing-loop-multi-event-break"
     if "break_loop_tail_of_loop" in f:
         return "PV-F-C-break-loop-at-tail-of-loop-body"
+    if "break_loop_tail_of_fork_ending_loop" in f:
+        return "PV-F-C2-break-loop-ends-fork-branch-ending-loop-body"
     if not m.complete and not m.too_large and \
-            unobserved_join(m.all_jobs, m.jobs):
-        return "PV-F-P-subset-never-shows-the-join-it-implies"
+            partial_fork_or_join(m.all_jobs, m.jobs):
+        return "PV-F-P-subset-shows-fork-or-join-partly"
     return None
 
 
-def _pred_families(jobs):
-    fam = {}
+def _families(jobs):
+    """per event type: (family of successor sets, family of predecessor
+    sets); the job start is the pseudo type |||START||| whose successor sets
+    are the sets of start events."""
+    succ, pred = {}, {}
     for job in jobs:
-        for t, prev in job:
+        out = {i: set() for i in range(len(job))}
+        starts = set()
+        for i, (t, prev) in enumerate(job):
+            succ.setdefault(t, set())
+            pred.setdefault(t, set())
             if prev:
-                fam.setdefault(t, set()).add(
-                    frozenset(job[p][0] for p in prev))
+                pred[t].add(frozenset(job[p][0] for p in prev))
+                for p in prev:
+                    out[p].add(t)
             else:
-                fam.setdefault(t, set())
-    return fam
+                starts.add(t)
+        for i, (t, _) in enumerate(job):
+            if out[i]:
+                succ[t].add(frozenset(out[i]))
+        succ.setdefault("|||START|||", set()).add(frozenset(starts))
+    return succ, pred
 
 
-def unobserved_join(all_jobs, jobs):
-    """F-P: for some event type, the observed predecessor sets lying under
-    one maximal predecessor set of the complete model do not contain their
-    own union - the job subset implies a join of several branches that it
-    never shows as a whole."""
-    comp = _pred_families(all_jobs)
-    sub = _pred_families(jobs)
-    for t, s in sub.items():
-        c = comp.get(t, set())
-        if s == c:
-            continue
-        maximal = [x for x in c if len(x) >= 2
-                   and not any(x < y for y in c)]
-        for mx in maximal:
-            under = [x for x in s if x <= mx]
-            if not under:
-                continue
-            u = frozenset().union(*under)
-            if u not in s:
+def partial_fork_or_join(all_jobs, jobs):
+    """F-P: the job subset shows only part of the family of successor sets
+    of an AND/OR fork (an event type - or the job start - that has, in the
+    complete model of the definition, a successor set of >=2 events) or only
+    part of the family of predecessor sets of a join (a predecessor set of
+    >=2 events).  Gate inference then nests the branches differently from
+    the definition, and the walk validates merges against the observed
+    predecessor sets only."""
+    cs, cp = _families(all_jobs)
+    ss, sp = _families(jobs)
+    for sub, comp in ((ss, cs), (sp, cp)):
+        for t, s in sub.items():
+            c = comp.get(t, set())
+            if s != c and any(len(x) >= 2 for x in c):
                 return True
     return False
 
